@@ -1285,6 +1285,12 @@ func (e *Engine) makeSlice(fr *Frame, st *State, ins *ssa.MakeSlice) Val {
 	pos := e.posOf(fr, ins.Pos())
 	e.oblige(st, "safety/makeslice", and(sx("<=", "0", ln), sx("<=", ln, cp), sx("<=", cp, maxLen)), pos, "make: length and capacity in range", nil)
 	el := under(ins.Type()).(*types.Slice).Elem()
+	if _, ok := e.contracts.Ghosts["allocd"]; ok {
+		// allocation counter: bytes requested by make([]T, n) so far (nil.allocd in contracts)
+		a := e.heapTerm(st, "G$allocd", "(Array Int Int)")
+		sz := types.SizesFor("gc", "amd64").Sizeof(el)
+		e.heapSet(st, "G$allocd", "(Array Int Int)", "0", sx("store", a, "0", sx("+", sx("select", a, "0"), sx("*", cp, num(sz)))))
+	}
 	r := e.freshRef(st, "mk")
 	for _, c := range flat(el) {
 		name := memName(el, c.Suffix)
